@@ -12,7 +12,7 @@ import (
 // around the instant the target's stream breaks.
 
 type flowParams struct {
-	profile  string // slow | break
+	profile  string // slow | break | resub
 	maxFill  int    // largest bulk state (leaves) a case may give the target
 	maxStorm int    // most observers attaching around one break
 }
@@ -25,6 +25,9 @@ type flowGen struct {
 	early  []int // observers subscribed from the start
 	breaks int
 	conn   bool // the target has its address for itself: closing the transport breaks only its stream
+	narrow map[int]bool // observers whose client query gets paths (drawn when the scripts are complete)
+	recon  []int        // reconnecting observers
+	rt     bool         // some break is a silence: the target needs a receive timeout
 }
 
 func (f *flowGen) scope() int {
@@ -92,20 +95,31 @@ func (f *flowGen) burst() {
 func (f *flowGen) breakPhase() {
 	t, g := f.t, f.g
 	f.breaks++
-	o := Op{Kind: "break", Via: rapid.SampledFrom([]string{"error", "error", "error", "conn", "conn", "rpc"}).Draw(t, "via")}
+	// who ends the stream: the target (a status, the transport) or the collector (asked to through its
+	// Collector service, or giving up a target that went quiet)
+	o := Op{Kind: "break", Via: rapid.SampledFrom([]string{"error", "error", "conn", "conn", "rpc", "rpc", "silence", "silence"}).Draw(t, "via")}
 	if o.Via == "conn" && !f.conn {
 		o.Via = "error"
 	}
-	if o.Via != "rpc" {
-		o.LoseMod = rapid.SampledFrom([]int{0, 1, 2, 2, 2, 3, 3, 5}).Draw(t, "losemod")
-		o.LoseRem = rapid.IntRange(0, 4).Draw(t, "loserem")
+	if o.Via == "error" {
+		o.Code = rapid.SampledFrom([]string{"", "", "", "canceled", "internal", "deadline", "eof"}).Draw(t, "code")
 	}
+	if o.Via == "silence" {
+		f.rt = true
+	}
+	// whoever ended it: the device may come back without some of what it had
+	o.LoseMod = rapid.SampledFrom([]int{0, 1, 2, 2, 2, 3, 3, 5}).Draw(t, "losemod")
+	o.LoseRem = rapid.IntRange(0, 4).Draw(t, "loserem")
 	attach := func(start, maxDelay int) int {
 		ob := Observer{Scope: f.scope(), Clock: 0, Start: start, Slow: rapid.IntRange(0, 4).Draw(t, "slowlate") == 0}
 		if maxDelay > 0 {
 			ob.DelayUs = rapid.IntRange(0, maxDelay).Draw(t, "delay")
 		}
 		f.obs = append(f.obs, ob)
+		if rapid.IntRange(0, 2).Draw(t, "narrowlate") == 0 {
+			f.narrow[len(f.obs)-1] = true
+			f.obs[len(f.obs)-1].OnceFirst = rapid.IntRange(0, 2).Draw(t, "oncefirst") == 0
+		}
 		return len(f.obs) - 1
 	}
 	if rapid.IntRange(0, 4).Draw(t, "aimed") > 0 {
@@ -137,9 +151,50 @@ func (f *flowGen) breakPhase() {
 	}
 }
 
+// subjects: observers whose client.Query value is used more than once - a ONCE first, and/or a
+// client.ReconnectClient that loses its transport to the collector and subscribes again - mostly with query paths.
+func (f *flowGen) subjects() {
+	t := f.t
+	for n := rapid.IntRange(1, 3).Draw(t, "subjects"); n > 0; n-- {
+		ob := Observer{Scope: f.scope(), Clock: 0, Slow: rapid.IntRange(0, 5).Draw(t, "slowsubj") == 0}
+		if rapid.Bool().Draw(t, "subjlate") {
+			ob.Start = len(f.g.ops) // the collector has something to walk for it
+			ob.DelayUs = rapid.IntRange(0, 4000).Draw(t, "subjdelay")
+		}
+		ob.Reconnect = rapid.IntRange(0, 3).Draw(t, "reconnect") > 0
+		ob.OnceFirst = rapid.IntRange(0, 2).Draw(t, "oncefirst") == 0
+		f.obs = append(f.obs, ob)
+		i := len(f.obs) - 1
+		f.narrow[i] = rapid.IntRange(0, 4).Draw(t, "narrowsubj") > 0
+		if ob.Reconnect {
+			f.recon = append(f.recon, i)
+		}
+	}
+}
+
+// cutPhase: a reconnecting observer loses its transport to the collector; the target goes on (the observer
+// misses that), waits - bounded - until the library has subscribed again, and goes on again.
+func (f *flowGen) cutPhase() {
+	t, g := f.t, f.g
+	i := f.recon[rapid.IntRange(0, len(f.recon)-1).Draw(t, "cutwho")]
+	if len(f.obs[i].Cuts) == 0 {
+		g.emit(Op{Kind: "await", Obs: i, Event: rapid.SampledFrom([]string{"sync", "sync", "first", "dialed"}).Draw(t, "cutwhen")})
+	}
+	f.obs[i].Cuts = append(f.obs[i].Cuts, len(g.ops))
+	for x := rapid.IntRange(0, 3).Draw(t, "missed"); x > 0; x-- {
+		g.step()
+	}
+	if rapid.IntRange(0, 5).Draw(t, "waitresub") > 0 {
+		g.emit(Op{Kind: "await", Obs: i, Event: "resub", N: len(f.obs[i].Cuts)})
+	}
+	for x := rapid.IntRange(1, 4).Draw(t, "tracked"); x > 0; x-- {
+		g.step()
+	}
+}
+
 func genFlowScenario(t *rapid.T, p flowParams) *Scenario {
 	sc := &Scenario{Servers: rapid.IntRange(1, 2).Draw(t, "servers"), Requests: rapid.IntRange(1, 2).Draw(t, "requests"), Subtree: rapid.IntRange(0, 5).Draw(t, "subtree")}
-	f := &flowGen{t: t, p: p, g: newTgen(t), conn: true}
+	f := &flowGen{t: t, p: p, g: newTgen(t), conn: true, narrow: map[int]bool{}}
 	g := f.g
 	tg := Target{Name: "dev0", Server: rapid.IntRange(0, sc.Servers-1).Draw(t, "server"), Request: rapid.IntRange(0, sc.Requests-1).Draw(t, "request")}
 	var others []Target
@@ -179,6 +234,9 @@ func genFlowScenario(t *rapid.T, p flowParams) *Scenario {
 		g.group()
 	}
 	fills := []int{0, 0, 0, 40, 300}
+	if p.profile == "resub" && rapid.Bool().Draw(t, "subjearly") {
+		f.subjects()
+	}
 	if p.profile == "break" {
 		fills = []int{0, 300, p.maxFill / 2, p.maxFill, p.maxFill, p.maxFill}
 	}
@@ -191,9 +249,20 @@ func genFlowScenario(t *rapid.T, p flowParams) *Scenario {
 	for _, i := range f.early {
 		g.emit(Op{Kind: "await", Obs: i, Event: "sync"})
 	}
+	if p.profile == "resub" && len(f.obs) == len(f.early) {
+		f.subjects()
+	}
 	for ph := rapid.IntRange(1, 3).Draw(t, "phases"); ph > 0; ph-- {
 		k := rapid.IntRange(0, 9).Draw(t, "phase")
 		switch {
+		case p.profile == "resub" && len(f.recon) > 0 && k < 7:
+			f.cutPhase()
+		case p.profile == "resub" && k < 8 && f.breaks < 1:
+			f.breakPhase()
+		case p.profile == "resub":
+			for x := rapid.IntRange(1, 4).Draw(t, "plain"); x > 0; x-- {
+				g.step()
+			}
 		case p.profile == "break" && f.breaks == 0 && ph == 1:
 			f.breakPhase()
 		case p.profile == "slow" && k < 7, p.profile == "break" && k < 2:
@@ -207,7 +276,17 @@ func genFlowScenario(t *rapid.T, p flowParams) *Scenario {
 		}
 	}
 	tg.Ops = g.ops
+	if f.rt || (p.profile == "break" && rapid.IntRange(0, 7).Draw(t, "rtanyway") == 0) {
+		tg.RecvTimeoutMs = rapid.SampledFrom([]int{500, 800}).Draw(t, "recvtimeout")
+	}
 	sc.Targets = append([]Target{tg}, others...)
+	// the scripts are complete: now it is known where query paths may point
+	for i := range f.obs {
+		if f.narrow[i] {
+			f.obs[i].Queries = newQueryGen(sc.Targets, f.obs[i].Scope).paths(t)
+		}
+	}
 	sc.Observers = f.obs
+	sc.Reuse = genReuse(t, sc.Targets)
 	return sc
 }
